@@ -13,7 +13,7 @@ import vlib
 
 PROPS = "Properties_C16"
 RULE = ("every string over {$,~,/,:,A,_,a,{,}} up to length 4 (quick) / 6 (thorough) under 3 environments "
-        "(length 6: one of the 3), every byte 1..255 around '$' and '~', seeded random longer strings and random "
+        "(length 6: one of the 3; thorough also length 7 over {$,~,/,:,A,_,a} and length 8 over {$,~,/,A}), every byte 1..255 around '$' and '~', seeded random longer strings and random "
         "environments (set/unset/empty, values with '$' and '~', HOME set/unset/empty, null environ, names that are "
         "prefixes of each other, entries without '='), allocation-failure scripts; non-trivial = the input contains "
         "a '$' followed by a name character or a '~'")
@@ -121,8 +121,16 @@ def byte_sweep():
 def gen(ctx, seed, tier):
     r = ctx.rng("gen", seed)
     thorough = tier == "thorough"
-    cases = list(exhaustive(6 if thorough else 4, 6))
-    cases += byte_sweep()
+    cases = []
+    if seed == ctx.seed:     # the exhaustive parts do not depend on the seed: not repeated by the search
+        cases = list(exhaustive(6 if thorough else 4, 6))
+        if thorough:
+            # deeper over reduced alphabets: length 7 over {$,~,/,:,A,_,a}, length 8 over {$,~,/,A}
+            for alpha, n in (("$~/:A_a", 7), ("$~/A", 8)):
+                for tup in itertools.product(alpha, repeat=n):
+                    s = "".join(tup)
+                    cases.append(mk(ENVS[zlib.crc32(s.encode()) % 3], "a:", s))
+        cases += byte_sweep()
     for _ in range(60000 if thorough else 6000):
         cases.append(mk(rand_env(r), "d" if r.random() < 0.15 else "a:", rand_input(r)))
     # allocation failure at every request index of a sample
